@@ -15,6 +15,7 @@
 #include <string.h>
 #include <sys/mman.h>
 #include <sys/resource.h>
+#include <sys/stat.h>
 #include <sys/wait.h>
 #include <time.h>
 #include <unistd.h>
@@ -111,6 +112,7 @@ void wrap_reset_case(void)
   W->ntr = 0;
   W->overflow = 0;
   W->nfault = 0;
+  W->faults_disabled = 0;
   W->nchild = 0;
   W->exec_seen = 0;
   W->n_badtarget = W->n_foreign_close = W->n_double_close = W->n_unknown_free = 0;
@@ -211,7 +213,7 @@ static trec *rec(int fn, int k, long a0, long a1, long a2)
   t->side = (uint8_t) w_side;
   t->fn = (uint8_t) fn;
   t->flags = 0;
-  t->k = (uint8_t) (k > 255 ? 255 : k);
+  t->k = k;
   t->op = w_cur_op;
   t->err = 0;
   t->a[0] = a0;
@@ -225,10 +227,11 @@ static trec *rec(int fn, int k, long a0, long a1, long a2)
 // Returns the errno to inject for the k-th call of fn on this side, or 0.
 static int fault_for(int fn, int k, trec *t)
 {
+  if (W->faults_disabled) return 0;
   for (int i = 0; i < W->nfault; i++) {
     wfault *f = &W->fault[i];
-    if (f->side == w_side && f->fn == fn && f->k == k) {
-      f->fired = 1;
+    if (f->side == w_side && f->fn == fn && f->k == k && !f->fired) {
+      f->fired = 1;  // one shot (shared memory: a later child of the same case does not re-fire it)
       t->flags |= TF_INJECTED;
       t->err = f->err;
       return f->err;
@@ -413,8 +416,10 @@ int __wrap_pipe(int fds[2])
   delay();
   int r = pipe(fds);
   if (r == 0) {
+    struct stat pst;
     t->a[0] = fds[0];
     t->a[1] = fds[1];
+    if (fstat(fds[0], &pst) == 0) t->a[2] = (long) pst.st_ino;
     if (w_side == 0) {
       fd_add(fds[0]);
       fd_add(fds[1]);
